@@ -592,6 +592,7 @@ func (d *Decl) BuildTags() *Built {
 	pv := reflect.New(t)
 	b.bindCmd(pv.Elem(), d.Top, true, true, "top")
 	p := flags.NewParser(pv.Interface(), d.Options)
+	p.SubcommandsOptional = d.Top.SubOptional // the parser itself has no tag to carry the mark
 	b.finishParser(p)
 	// map commands
 	var mapCmds func(fc *flags.Command, c *Cmd)
